@@ -205,9 +205,29 @@ func (c *VerifCluster) LookupCommand(node ch.NodeID, command ch.CommandID) Comma
 	return results[0]
 }
 
+// OwnerHW is the committed watermark the owner of one node has acknowledged (0 when the
+// owner has no ready channel).
+func (c *VerifCluster) OwnerHW(node ch.NodeID) uint64 {
+	state := c.owners[node].existingChannel(c.cfg.Key)
+	if state == nil {
+		return 0
+	}
+	state.mu.Lock()
+	defer state.mu.Unlock()
+	if !state.ready {
+		return 0
+	}
+	return state.hw
+}
+
 // Checkpoint persists a standalone committed watermark on one node, as the
-// reactor's TaskStoreCheckpoint does (StoreCheckpoint ignores regressions).
+// reactor's TaskStoreCheckpoint does after a receipt (StoreCheckpoint ignores
+// regressions).  The reactor only checkpoints what its owner has acknowledged, so
+// the value is capped by OwnerHW.
 func (c *VerifCluster) Checkpoint(node ch.NodeID, hw uint64) error {
+	if cap := c.OwnerHW(node); hw > cap {
+		hw = cap
+	}
 	store, err := c.cfg.Factories[node].ChannelStore(c.cfg.Key, c.cfg.ID)
 	if err != nil {
 		return err
